@@ -1,6 +1,7 @@
 import RossModel.Lemmas.Calls
 import RossModel.Lemmas.SerialEnd
 import RossModel.Lemmas.Transparent
+import RossModel.Lemmas.SourceReceivers
 /-!
 # C13 — Each link is transparent to packet sequences under every polling schedule
 
@@ -80,5 +81,15 @@ the middle of the frame body — the first call finds nothing, the second waits 
 example : usartPolls LinkSt.init ([.wouldBlock] ++ ([0x00, 0x09, 0x02, 0xc0, 0x01, 0x06, 0x09, 0x03, 0x01].map ByteItem.byte) ++
       [.wouldBlock] ++ ([0x02, 0x03].map ByteItem.byte)) =
     [.nothing, .emit (.packet ⟨false, 9, [1, 2, 3]⟩), .nothing] := by decide
+
+/-- **Source tie (control flow).** The frame-level step of each receiver as translated from
+`src/interface/{can,usart,serial}.rs` on every run is the model's `rxFrame` (the function the poll traces of the
+transparency theorems are built on), and so is every run of it over a sequence of decoder answers: the emissions of a
+receiver depend on the decoded link frames alone, not on how they were split over calls. -/
+theorem C13_src_run_eq (st : RxSt) (rs : List (Res FErr Frame)) :
+    runWith Src.canAccept st rs = run st rs ∧ runWith Src.usartAccept st rs = run st rs ∧
+    runWith Src.serialAccept st rs = run st rs :=
+  ⟨Ross.runWith_eq _ Ross.src_canAccept_eq st rs, Ross.runWith_eq _ Ross.src_usartAccept_eq st rs,
+   Ross.runWith_eq _ Ross.src_serialAccept_eq st rs⟩
 
 end Ross.Props
